@@ -68,7 +68,7 @@ CHECKS = {
     "C09": dict(
         engine="histx", category="model_checking", design="DESIGN.md section 5, C09",
         technique="exhaustive enumeration of file distributions: every assignment of a non-empty file subset to every child of a splittable element of eight master models, sibling-order and version variants, every load order; every merge executed on the real loader and compared with the master tree and with each file loaded alone",
-        text="For eight master models (nested packages, mixed-kind ELEMENTS bags incl. every sibling order per file, BSW containers and parameter values of two kinds keyed by DEFINITION-REF, an element kind that only the newer file version has, a specification-ordered parent split between files of two versions) every distribution over 2 and 3 (thorough: also 4) files that splits only below splittable elements, with reversed sibling order and mixed versions per file, is loaded in every order: the merged model equals the master (each element once; below parents whose content order is fixed by the specification also in that order), every element is attributed to exactly the files that contained it, every file serialized from the merged model has the content of that file loaded alone, all C03-C05 invariants hold; the documented path conflict must be rejected and rejected files must leave no trace.",
+        text="For eight master models (nested packages, mixed-kind ELEMENTS bags incl. every sibling order per file, BSW containers and parameter values of two kinds keyed by DEFINITION-REF, an element kind that only the newer file version has, a specification-ordered parent split between files of two versions) every distribution over 2 and 3 (thorough: also 4) files that splits only below splittable elements, with reversed sibling order and mixed versions per file, is loaded in every order: the merged model equals the master (each element once; below parents whose content order is fixed by the specification also in that order), every element is attributed to exactly the files that contained it, every file serialized from the merged model has the content of that file loaded alone, all C03-C05 invariants hold; the documented path conflict and a divergence found after a new package was imported must be rejected and rejected files must leave no trace.",
         note="Trusted: the splittable flags of the specification tables decide where a child may have its own file set. Masters with more slots than the tier's cap for a given number of files are skipped for that number (listed in the evidence)."),
     "C14": dict(
         engine="histx", category="model_checking", design="DESIGN.md section 5, C14",
@@ -78,7 +78,7 @@ CHECKS = {
     "C15": dict(
         engine="schedx", category="model_checking", design="DESIGN.md sections 4 and 5, C15",
         technique='stateless model checking of the implementation: real threads under a controlled scheduler (every lock acquisition of the crate is a scheduling point through the verif lock shim), a parking_lot RwLock admission model bound to the real lock, preemption-bounded depth-first enumeration of all schedules by prefix replay',
-        text="All 1435 reader-writer, writer-writer and same-operation pairs and 6 triples of a 58-operation catalogue (serialize, path, lookups, check_references, duplicate, create, copy, move, remove, rename, reference edits, comment, attribute, sort, create_file, remove_file, two loads, set_version, remove_from_file) on a shared seed model: every schedule with at most 1 (thorough 2) preemptions, including every timeout choice of timed acquisitions, is executed on the real code; a state in which unfinished threads exist and no lock transition (including timeouts) is enabled is a deadlock. Each reported schedule is replayed twice and must behave identically.",
+        text="All 1494 reader-writer, writer-writer and same-operation pairs and 6 triples of a 59-operation catalogue (serialize, path, lookups, check_references, duplicate, create, copy, move, remove, rename, reference edits, comment, attribute, sort, create_file, remove_file, two loads, set_version, remove_from_file) on a shared seed model: every schedule with at most 1 (thorough 2) preemptions, including every timeout choice of timed acquisitions, is executed on the real code; a state in which unfinished threads exist and no lock transition (including timeouts) is enabled is a deadlock. Each reported schedule is replayed twice and must behave identically.",
         note='Trusted: all shared state of the crate is behind the intercepted locks (no unsafe, atomics or static mut in autosar-data); the lock model (checked against parking_lot in 14 situations at the start of every run and at every granted step); file locks are modelled but are not branching points. More than 3 threads, schedules needing more preemptions than the bound, and tuples whose exploration exceeds the execution budget (listed in the evidence with the bound they completed) are outside.'),
     "C16": dict(
         engine="schedx", category="model_checking", design="DESIGN.md sections 4 and 5, C16",
@@ -88,7 +88,7 @@ CHECKS = {
     "C07": dict(
         engine="specwalk", category="model_checking", design="DESIGN.md section 5, C07",
         technique="explicit-state exploration per content model: every datatype x version, every content state reachable by <= 2-3 creations, every candidate sub-element at every position (create-at, copy-at, move-at), every value/attribute candidate; each step executed through the real editing API and compared with the harness's own order checker and table-driven validator, then serialized and reloaded leniently",
-        text="For every distinct content model (datatype) of 4 (thorough: 21) versions: list_valid_sub_elements equals the specification listing and its is_named / is_allowed flags are right in every explored state; create_at(p) succeeds <=> p is in calc_element_insert_range <=> inserting at p keeps the harness's specification order, and the range is exactly the set of valid positions; auto-positioned creation fails only if no position is valid; copy-at/move-at from a second model and moves within the parent obey the same rule; every package of the full-coverage document copied into a file of another version (adjacent versions; thorough: all 441 pairs) validates and loads strictly there; set_character_data / set_attribute / set_attribute_string accept a value <=> it is permitted for the spec in the file's version (all enum items, pattern members and non-members, length boundaries, wrong kinds, unlisted and version-foreign attributes); after every successful step the file is serialized and loaded leniently: same content, no warning other than RequiredAttributeMissing, and the harness validator finds nothing else.",
+        text="For every distinct content model (datatype) of 4 (thorough: 21) versions: list_valid_sub_elements equals the specification listing and its is_named / is_allowed flags are right in every explored state; create_at(p) succeeds <=> p is in calc_element_insert_range <=> inserting at p keeps the harness's specification order, and the range is exactly the set of valid positions; auto-positioned creation fails only if no position is valid; copy-at/move-at from a second model and moves within the parent obey the same rule; every package of the full-coverage document copied into a file of another version (adjacent versions; thorough: all 441 pairs) validates and loads strictly there; in a model with an older and a newer file owning one package each, every ELEMENTS member kind (and every direct child kind) that only the newer version has is moved into the older file's package with move_element_here / move_element_here_at: whatever the call answers, no file gains a loader complaint; set_character_data / set_attribute / set_attribute_string accept a value <=> it is permitted for the spec in the file's version (all enum items, pattern members and non-members, length boundaries, wrong kinds, unlisted and version-foreign attributes); after every successful step the file is serialized and loaded leniently: same content, no warning other than RequiredAttributeMissing, and the harness validator finds nothing else.",
         note="Trusted: harness order checker valid_children (pairwise reading of the group structure) and specvalid. Content states deeper than the creation bound and parents with more than 60 candidate sub-elements (reduced to 3 prior children x 40 candidates) are not covered completely."),
     "C08": dict(
         engine="specwalk", category="model_checking", design="DESIGN.md section 5, C08",
